@@ -81,12 +81,12 @@ CFG = {
                          build_file="buildMatrix.cpp", sweep="smoothingSequential", extrapolated=False),
     "ExtrapolatedSmootherTake": dict(dir="src/ExtrapolatedSmoother/ExtrapolatedSmootherTake",
                                      hdr="include/ExtrapolatedSmoother/ExtrapolatedSmootherTake/extrapolatedSmootherTake.h",
-                                     build_macros=["UPDATE_MATRIX_ELEMENT", "COO_CSR_UPDATE", "NODE_BUILD_SMOOTHER_TAKE"],
+                                     build_macros=["UPDATE_TRIDIAGONAL_ELEMENT", "UPDATE_DIAGONAL_ELEMENT", "COO_CSR_UPDATE", "NODE_BUILD_SMOOTHER_TAKE"],
                                      apply_macros=["NODE_APPLY_ASC_ORTHO_CIRCLE_TAKE", "NODE_APPLY_ASC_ORTHO_RADIAL_TAKE"],
                                      build_file="buildAscMatrices.cpp", sweep="extrapolatedSmoothing", extrapolated=True),
     "ExtrapolatedSmootherGive": dict(dir="src/ExtrapolatedSmoother/ExtrapolatedSmootherGive",
                                      hdr="include/ExtrapolatedSmoother/ExtrapolatedSmootherGive/extrapolatedSmootherGive.h",
-                                     build_macros=["UPDATE_MATRIX_ELEMENT", "COO_CSR_UPDATE", "NODE_BUILD_SMOOTHER_GIVE"],
+                                     build_macros=["UPDATE_TRIDIAGONAL_ELEMENT", "UPDATE_DIAGONAL_ELEMENT", "COO_CSR_UPDATE", "NODE_BUILD_SMOOTHER_GIVE"],
                                      apply_macros=["NODE_APPLY_ASC_ORTHO_CIRCLE_GIVE", "NODE_APPLY_ASC_ORTHO_RADIAL_GIVE"],
                                      build_file="buildAscMatrices.cpp", sweep="extrapolatedSmoothingSequential", extrapolated=True),
 }
@@ -234,4 +234,33 @@ def allocation(cls, nr, nt, nsc, dirbc, rules):
         t.append("  inner_boundary_circle_matrix_.rows_ = %d; inner_boundary_circle_matrix_.columns_ = %d; inner_boundary_circle_matrix_.nnz_ = %d;" % (nt, nt, per * nt))
         t.append("  for (int k = 0; k <= %d; k++) inner_boundary_circle_matrix_.row_start_indices_[k] = %d * k;" % (nt, per))
         t.append("  for (int s = 0; s < %d; s++) { inner_boundary_circle_matrix_.column_indices_[s] = -1; inner_boundary_circle_matrix_.values_[s] = 0; }" % (per * nt))
+    else:
+        need = [r"solver_matrix = SymmetricTridiagonalSolver<double>\(num_circle_nodes\); solver_matrix\.is_cyclic\(true\);",
+                r"solver_matrix = DiagonalSolver<double>\(num_circle_nodes\);",
+                r"solver_matrix = SymmetricTridiagonalSolver<double>\(num_radial_nodes\); solver_matrix\.is_cyclic\(false\);",
+                r"solver_matrix = DiagonalSolver<double>\(num_radial_nodes\);",
+                r"if\s*\(DirBC_Interior_\) return 1; else return i_theta % 2 == 0 \? 1 : 2;",
+                r"if \(circle_Asc_index & 1\) \{ const int circle_tridiagonal_solver_index = circle_Asc_index / 2;",
+                r"if \(radial_Asc_index & 1\) \{ const int radial_tridiagonal_solver_index = radial_Asc_index / 2;",
+                r"const int num_circle_nodes = grid_\.ntheta\(\);", r"const int num_radial_nodes = length_smoother_radial;"]
+        for n in need:
+            if not re.search(n, b):
+                raise ExtractError("%s::buildAscMatrices allocation text changed: %s" % (cls, n))
+        rules.log.append(("S.allocation_text_checked", len(need)))
+        def ts(name, i, n, cyc):
+            t.append("  %s[%d].matrix_dimension_ = %d; %s[%d].is_cyclic_ = %d; %s[%d].cyclic_corner_element_ = 0;" % (name, i, n, name, i, cyc, name, i))
+            t.append("  for (int k = 0; k < %d; k++) { %s[%d].main_diagonal_values_[k] = 0; %s[%d].sub_diagonal_values_[k] = 0; }" % (n, name, i, name, i))
+        def ds(name, i, n):
+            t.append("  %s[%d].matrix_dimension_ = %d; for (int k = 0; k < %d; k++) %s[%d].diagonal_values_[k] = 0;" % (name, i, n, n, name, i))
+        for i in range(1, nsc):
+            (ts("circle_tridiagonal_solver_", i // 2, nt, 1) if i % 2 == 1 else ds("circle_diagonal_solver_", i // 2, nt))
+        for j in range(nt):
+            (ts("radial_tridiagonal_solver_", j // 2, lsr, 0) if j % 2 == 1 else ds("radial_diagonal_solver_", j // 2, lsr))
+        rs = [0]
+        for j in range(nt):
+            rs.append(rs[-1] + (1 if dirbc else (1 if j % 2 == 0 else 2)))
+        t.append("  inner_boundary_circle_matrix_.rows_ = %d; inner_boundary_circle_matrix_.columns_ = %d; inner_boundary_circle_matrix_.nnz_ = %d;" % (nt, nt, rs[-1]))
+        for k, v in enumerate(rs):
+            t.append("  inner_boundary_circle_matrix_.row_start_indices_[%d] = %d;" % (k, v))
+        t.append("  for (int s = 0; s < %d; s++) { inner_boundary_circle_matrix_.column_indices_[s] = -1; inner_boundary_circle_matrix_.values_[s] = 0; }" % rs[-1])
     return t
